@@ -817,6 +817,11 @@ class Models(object):
         ax = [z3.InRe(lower_uf(t), no_upper),
               z3.Implies(z3.InRe(t, no_upper), lower_uf(t) == t),
               z3.Length(lower_uf(t)) == z3.Length(t)]
+        for c in E.lower_hints:
+            if c == c.lower() and c.isascii():
+                caseless = z3.Concat(*[z3.Union(z3.Re(ch), z3.Re(ch.upper())) if ch.upper() != ch else z3.Re(ch) for ch in c]) \
+                    if len(c) > 1 else (z3.Union(z3.Re(c), z3.Re(c.upper())) if c.upper() != c else z3.Re(c))
+                ax.append((lower_uf(t) == z3.StringVal(c)) == z3.InRe(t, caseless))
         for a in ax:
             E.assume(a)
         E.path.assumed.append("A6:str.lower ASCII")
@@ -1069,9 +1074,42 @@ class Models(object):
         return [sym.mk_str(p) for p in sr.parts]
 
     def split_index(self, sr, k):
+        E = self.E
         k = sym.concrete(k)
         if not isinstance(k, int):
             raise Unsupported("symbolic index into split()")
+        if sr.parts is None and k >= 0 and not sr.right and sr.maxsplit < 0 and len(sr.sep) == 1:
+            # lazy left-to-right extraction: x_i = p_i ++ t_i, p_i separator-free, t_i empty or starting with the separator
+            if not hasattr(sr, "lazy"):
+                sr.lazy = []
+                sr.x = sr.s
+                sr.t = None
+            piece = z3.Star(sym.not_chars(sr.sep))
+            sept = z3.StringVal(sr.sep)
+            while len(sr.lazy) <= k:
+                if sr.t is not None:
+                    if not E.decide(sr.t != z3.StringVal("")):
+                        raise PyRaise(ExcVal(IndexError, ()))
+                    nx = E.fresh("split_x", sym.S)
+                    E.assume(sr.t == z3.Concat(sept, nx))
+                    sr.x = nx
+                ps = self.pieces(sr.x)
+                if all(isinstance(p, str) or self.sepfree(p, sr.sep) for p in ps) and \
+                        not any(isinstance(p, str) and sr.sep in p for p in ps):
+                    pi, ti = sr.x, z3.StringVal("")
+                elif ps and isinstance(ps[0], str) and sr.sep in ps[0]:
+                    cut = ps[0].index(sr.sep)
+                    pi = z3.StringVal(ps[0][:cut])
+                    ti = self.join_pieces([ps[0][cut:]] + ps[1:])
+                else:
+                    pi = E.fresh("split_p", sym.S)
+                    ti = E.fresh("split_t", sym.S)
+                    E.assume(sr.x == z3.Concat(pi, ti))
+                    E.assume(z3.InRe(pi, piece))
+                    E.assume(z3.Or(ti == z3.StringVal(""), z3.PrefixOf(sept, ti)))
+                sr.lazy.append(pi)
+                sr.t = ti
+            return sym.mk_str(sr.lazy[k])
         parts = self.split_list(sr)
         try:
             return parts[k]
@@ -1139,6 +1177,7 @@ class Models(object):
             m.groups[n] = v
             d.entries.append(Entry(n, True, v))
         E.path.notes.append(("match", m))
+        E.path.abstract = True       # ghost inputs: covers/counter-models of this path are not determined by the arguments
         return d
 
     def re_match(self, pattern, v):
